@@ -11,7 +11,7 @@ from . import gen
 from .refmodel import Registry
 
 # the failing callable and the verbatim one weigh more: what they raise / return is a dimension of its own
-METHOD_NAMES = Registry.NAMES + ["nope", "fault", "system.listMethods", "_private", "echo ", "boom", "boom", "boom"]
+METHOD_NAMES = Registry.NAMES + ["nope", "fault", "system.listMethods", "_private", "echo ", " echo", "rpc.unknown", "boom", "boom", "boom"]
 
 values = gen.json_values(6)
 
